@@ -6,7 +6,7 @@ wallets of a multisig wallet; histories on the wallet and its cached key objects
 interpreted path tables of the source), tied to keys.py / wallets.py / db.py by translator/gen_fields.py ->
 Gen/GenFields.v and Glue/FieldsGlue.v.  Correspondence side (TESTING, labelled so): taint differential + scan on
 real objects."""
-import json, os
+import json, os, re
 from core import Case, REPO
 
 PROP = 'C16'
@@ -31,6 +31,16 @@ ASSUMPTIONS = [
     'wallet) and every history; bodies of HDKey.public_master, WalletKey.key, as_json and the argument lists (defaults '
     'as_private=False, is_private=False, include_private=False) of every view / export entry point are frozen in the '
     'model and compared with the regenerated ones (wallet_methods_glue)',
+    'view entry points called WITH ARGUMENTS: an argument value is abstracted to its Python truth value (None / bool / int '
+    '/ str / unknown); HDKey.public_master is the regenerated return-path table interpreted over the argument environment; '
+    'HDKey.public_master_multisig and HDKey.wif_public are the regenerated keyword -> argument mapping of their forwarding '
+    'call (call_forwards: positional arguments resolved to the callee\'s parameter names) interpreted fail-closed (missing '
+    'row / unreadable argument expression / unknown body = request for the private key); public_master_args_clean, '
+    'public_master_multisig_clean, wif_public_args_clean, hd_wif_args_clean, wallet_public_master_args_clean hold for ALL '
+    'values of the arguments that do not ask for private output; which parameter NAMES ask for private output is a frozen '
+    'list (as_private, include_private, is_private) and view_entry_points_glue stops checking when a public-named function '
+    'appears or an entry point gains a parameter whose name is in neither reviewed list; the body of HDKey.wif is frozen '
+    'text (its reading in the model is by hand)',
     'wallet differential: after every step of a wallet history the attribute codes of wallet.main_key (of every '
     'cosigner wallet) and of every WalletKey handed out by public_master(as_private=..) / main_key.public(), and the '
     'taint of wif / as_dict / as_json / info / repr / key() output, equal the wallet model; get_key / new_key / '
@@ -70,6 +80,21 @@ RULE = ('corpus histories ([Wif;Public] etc. for Key and HDKey on every network)
         'other witness types, its key() and public(), wif(), as_dict, as_json, info(0|3|5), repr, keys*(as_dict), '
         'addresslist, wallets_list, every WalletKey as_dict / repr / public(), account(), transactions, the same on '
         'every cosigner wallet) with a sensitivity control per wallet (the explicit private export must be found).  '
+        'ARGUMENTS: key histories contain HDKey.public_master / public_master_multisig / wif_public / wif with random '
+        'arguments (every witness type, multisig, accounts, purposes, prefixes, false and true forms of as_private / '
+        'is_private), a fixed corpus of them for every witness type; wallet histories contain Wallet.public_master with '
+        'arguments (name, account, witness type, false / true forms of as_private) on the wallet and its cosigner wallets; '
+        'pvk / pvw requests call EVERY function that presents its result as public (enumerated from the source by '
+        'translator/gen_fields.entry_point_params; reviewed by name in VIEW_ENTRIES / NOT_VIEWS, an unreviewed function or '
+        'parameter is a failing case) with the full product of the reviewed values of its plain parameters (wallet level: '
+        'every value once + a seeded sample in the quick tier, the full product in the thorough tier) plus the explicit '
+        'false forms of the asks-for-private parameters, on a fresh copy of the source (master / cache-warm / multisig / '
+        'account-depth HD keys, plain keys, every wallet configuration with warm caches, every cosigner wallet, wallet keys) '
+        'and one after the other on ONE shared object; the result and everything reachable from it (attributes, pickle, '
+        'deepcopy, every export, network_change copy, nested key of a WalletKey) is scanned for every encoding of the source '
+        'secret and of every private key on the derivation path of the call (derived here with hmac/hashlib from BIP32 and '
+        'the frozen BIP44/45/48/49/84 path shapes, and by the library with as_private=True); sensitivity control per entry '
+        'point: the same call asking for private output must be found.  '
         'A case is non-trivial when the adapter produced states (no CRASH); distinct by request')
 
 N = 0xFFFFFFFFFFFFFFFFFFFFFFFFFFFFFFFEBAAEDCE6AF48A03BBFD25E8CD0364141
@@ -145,6 +170,23 @@ def gen_cases(rng, tier):
         cs.append(Case('corpus', key_req('H', 'priv1', ['Wif', 'HdWif1', 'PublicMaster', 'Pickle', 'Info'], rsecret(), net,
                                          rchain(), 'wif')))
         cs.append(Case('corpus', key_req('K', 'priv1', ['Wif', 'Public', 'Pickle'], rsecret(), net, rchain(), 'wif')))
+    # public_master / public_master_multisig / wif_public / wif WITH ARGUMENTS inside histories (warm caches before,
+    # pickle / exports after): every witness type, accounts, purposes, the multisig flag, false forms of as_private
+    arg_corpus = []
+    for wt in WITNESS_TYPES:
+        arg_corpus += [['Wif', 'HdWif1', 'Pmm~witness_type=s' + wt, 'Pickle', 'Info', 'Hw~is_private=T'],
+                       ['Info', 'Pm~witness_type=s%s~multisig=T~account_id=i1' % wt, 'DeepCopy', 'AsDict1', 'Wp~multisig=T'],
+                       ['AsDict1', 'Pmm~account_id=i5~witness_type=s%s~as_private=F' % wt, 'Pickle', 'HdWif1'],
+                       ['Pm~witness_type=s%s~as_private=N~purpose=i48' % wt, 'Wif', 'Info']]
+    arg_corpus += [['Pmm~as_private=T', 'Wif', 'Public', 'Pickle'], ['Pm~as_private=i1~multisig=T', 'HdWif1', 'Pmm', 'Info'],
+                   ['Hw', 'Hw~is_private=F~multisig=T', 'Wp~prefix=s0488ade4', 'Hw~is_private=T~witness_type=slegacy', 'Public',
+                    'Hw~is_private=T'], ['Pmm', 'Pickle'], ['Pm~purpose=i45~multisig=T', 'Wp', 'Info', 'Pm']]
+    for j, ops in enumerate(arg_corpus):
+        cs.append(Case('corpus_args', key_req('H', 'priv1', ops, rsecret(), ['bitcoin', 'litecoin', 'testnet', 'bitcoinlib_test'][j % 4],
+                                              rchain(), ['arg', 'wif', 'ms', 'bin'][j % 4])))
+    eps = entry_points()
+    HP = {h: [p for p, _ in eps[q]] for h, q in (('Pm', 'HDKey.public_master'), ('Pmm', 'HDKey.public_master_multisig'),
+                                                 ('Wp', 'HDKey.wif_public'), ('Hw', 'HDKey.wif'))}
     # ---- random histories
     for _ in range(10000 if big else 400):
         cls = rng.choice('KH')
@@ -165,6 +207,8 @@ def gen_cases(rng, tier):
         n = rng.randrange(0, 13 if big else 11)
         ops = []
         private = kind.startswith('priv')
+        knet = rng.choice(nets)
+        seg_ok = knet not in ('dogecoin', 'dogecoin_testnet', 'litecoin_legacy')
         for _ in range(n):
             o = rng.choice(pool)
             if rng.random() < 0.18:
@@ -174,12 +218,23 @@ def gen_cases(rng, tier):
                     o = 'Address'
                 else:
                     enc_budget[0] -= 1
+            if cls == 'H' and kind == 'priv1' and fmt != 'single' and rng.random() < 0.22:
+                # an argument-carrying call (only on keys every witness type can be asked of: compressed, on a network
+                # with segwit extended-key rows)
+                h = rng.choice(['Pm', 'Pmm', 'Wp', 'Hw'])
+                if h in ('Pm', 'Pmm') and not private:
+                    h = 'Wp'
+                pr = [p for p in HP[h] if p != 'child_index' and
+                      (seg_ok or p in ('account_id', 'as_private', 'is_private'))]
+                o = h + rand_args(rng, pr, 0.15)
+                if h in ('Pm', 'Pmm') and not any(('%s=%s' % (a, v)) in o for a in ASKS_PRIVATE for v in ('T', 'i1', 'ssegwit')):
+                    private = False
             if o == 'PublicMaster' and not private:
                 o = 'ChildPub'
             if o in ('Public', 'ChildPub', 'PublicMaster'):
                 private = False
             ops.append(o)
-        cs.append(Case('key_' + cls + '_' + kind, key_req(cls, kind, ops, rsecret(), rng.choice(nets), rchain(), fmt)))
+        cs.append(Case('key_' + cls + '_' + kind, key_req(cls, kind, ops, rsecret(), knet, rchain(), fmt)))
     # ---- WalletKey histories
     for j in range(600 if big else 36):
         kind = ['priv1', 'priv0', 'pub1', 'pub0', 'addr', 'priv1'][j % 6]
@@ -217,7 +272,11 @@ def gen_cases(rng, tier):
         cs.append(Case(kind, '%s %s %s %s %s' % (head, seed, net, extra, wt)))
     # ---- wallet configurations x histories x every public-view entry point
     cs += gen_wal_cases(rng, tier, nets)
-    return cs
+    # ---- every function that presents its result as public x every combination of its (non-private-asking) arguments
+    # (placed before the other wallet-level requests: they are the longest ones of the worker pool)
+    pv = gen_pv_cases(rng, tier, nets)
+    k = next((i for i, c in enumerate(cs) if c.req.split(' ')[0] in ('wk', 'wallet', 'dbfile', 'wal')), len(cs))
+    return cs[:k] + pv + cs[k:]
 
 
 def wal_wt(rng, net, wt=None):
@@ -235,12 +294,19 @@ def wal_ops_ok(conf, net, ops):
         own = int(conf.split(':')[2])
         for o in ops:
             if '.' in o:
-                i, b = int(o[1:o.index('.')]), o.split('.')[1]
+                i, b = int(o[1:o.index('.')]), o.split('.', 1)[1]
+                if b.startswith('PmA'):
+                    if i < len(cs):
+                        out.append(o)
+                    continue
                 if i >= len(cs) or b not in WAL_COS_OPS + ['MainWifKey', 'MainEncrypt']:
                     continue
                 if b in ('MainWifKey', 'MainEncrypt') and cs[i] not in WAL_PRIVATE_CONFS:
                     continue
             else:
+                if o.startswith('PmA'):
+                    out.append(o)
+                    continue
                 if o not in WAL_MULTI_TOP + ['Sign']:
                     continue
                 if o == 'Sign' and not (net == 'bitcoinlib_test' and cs[own] in WAL_PRIVATE_CONFS):
@@ -249,6 +315,11 @@ def wal_ops_ok(conf, net, ops):
         return out
     for o in ops:
         if '.' in o:
+            continue
+        if o.startswith('PmA'):
+            # another account / network / witness type can only be derived from a private master key
+            if conf == 'master' or not any(a in o for a in ('account_id=i1', 'account_id=i5', 'network=', 'witness_type=')):
+                out.append(o)
             continue
         if o in ('MainWifKey', 'MainEncrypt') and conf not in WAL_PRIVATE_CONFS:
             continue
@@ -289,6 +360,11 @@ def gen_wal_cases(rng, tier, nets):
             net = 'bitcoinlib_test' if i % 2 == 0 else nets[i % len(nets)]
             i += 1
             ops = WAL_WARM + (['Sign', 'Pm0'] if net == 'bitcoinlib_test' else [])
+            # Wallet.public_master WITH ARGUMENTS: false forms of as_private, a name, another account, another witness type
+            ops = ops + ['PmA~as_private=F~name=spmname', 'PmA~as_private=N', 'PmA~account_id=i1~as_private=i0',
+                         'PmA~as_private=T', 'PmA~account_id=i0']
+            if wal_wt(rng, net, wt) == wt and net not in ('litecoin_legacy',):
+                ops.append('PmA~witness_type=s' + [x for x in WITNESS_TYPES if x != wt][i % 2])
             if wt == 'segwit' and conf in ('acctprv', 'single'):
                 ops = ['MainEncrypt'] + ops
             cs.append(Case('wal_' + conf, wal_req(conf, ops, rseed(), net, wal_wt(rng, net, wt))))
@@ -300,7 +376,8 @@ def gen_wal_cases(rng, tier, nets):
         net = 'bitcoinlib_test' if j % 2 == 0 else nets[(3 * j) % len(nets)]
         ops = ['c%d.%s' % (k, o) for k in range(n) for o in ('MainKey', 'MainWif', 'MainWifKey')] + \
               ['Wif1', 'Pm1', 'SrcKey', 'AsDict1', 'Pm0', 'PmKey', 'Wif0', 'c0.Pm0', 'c1.Pm0', 'c0.MainPublic', 'Info',
-               'AsDict0', 'Repr', 'Sign', 'Reopen', 'Pm0', 'c0.Pm0', 'c1.Pm0', 'Wif0', 'Pm1']
+               'AsDict0', 'Repr', 'Sign', 'Reopen', 'Pm0', 'c0.Pm0', 'c1.Pm0', 'Wif0', 'Pm1',
+               'PmA~as_private=F~name=spmname', 'c0.PmA~as_private=N', 'c1.PmA~as_private=i0', 'PmA~as_private=T', 'PmA']
         cs.append(Case('wal_multisig', wal_req(conf, ops, rseed(), net, wal_wt(rng, net, WITNESS_TYPES[j % 3]))))
     cs.append(Case('wal_master', wal_req('master', ['Wif1', 'Pm0', 'Reopen', 'Pm0'], rseed(), 'litecoin', 'segwit', 'm')))
     cs.append(Case('wal_acctprv', wal_req('acctprv', ['Pm0', 'Wif0'], rseed(), 'testnet', 'p2sh-segwit', 'w')))
@@ -328,7 +405,9 @@ def gen_wal_cases(rng, tier, nets):
             pool = WAL_OPS + ['MainWifKey', 'NewKey', 'Sign', 'NewAccount', 'NewKeyNet', 'NewKeyWt', 'ImportKey']
         ops = []
         for _ in range(rng.randrange(0, 13 if big else 9)):
-            ops.append(rng.choice(pool) if rng.random() > 0.25 else rng.choice(['Pm0', 'Pm0', 'Wif0', 'PmKey']))
+            ops.append(rng.choice(pool) if rng.random() > 0.25 else
+                       rng.choice(['Pm0', 'Pm0', 'Wif0', 'PmKey', 'PmA~as_private=' + rng.choice(FALSY),
+                                   'PmA~name=spmname~as_private=' + rng.choice(FALSY + ['T']), 'PmA~account_id=i1']))
         flags = '-'
         if not multi and conf == 'master' and rng.random() < 0.25:
             flags = 'i'
@@ -340,6 +419,183 @@ def gen_wal_cases(rng, tier, nets):
             flags = 'n'
         cs.append(Case('wal_' + ('multisig' if multi else conf), wal_req(conf, ops, rseed(), net, wt, flags)))
     return cs
+
+
+# ------------------------------------------------------------------ EVERY view entry point x ARGUMENT combinations
+# FROZEN review tables.  Which parameters exist is read from the source (translator/gen_fields.entry_point_params: the
+# same enumeration Gen/GenFields.v entry_params is made from); what is done with them is decided here by NAME.
+ASKS_PRIVATE = ('as_private', 'include_private', 'is_private')      # requests for private output: never set to true
+FALSY = ['F', 'N', 'i0']
+ARG_VALUES = {
+    'account_id': ['N', 'i0', 'i1', 'i5'],
+    'purpose': ['N', 'i44', 'i45', 'i48', 'i49', 'i84'],
+    'multisig': ['N', 'F', 'T'],
+    'witness_type': ['N', 'slegacy', 'sp2sh-segwit', 'ssegwit'],
+    'prefix': ['N', 's0488b21e', 's04b24746', 's0488ade4'],
+    'child_index': ['N', 'i0', 'i7'],
+    'name': ['N', 'spmname'],
+    'network': ['N', '$other'],
+    'detail': ['i0', 'i1', 'i2', 'i3', 'i4', 'i5'],
+    'index': ['i0', 'i3'],
+    'key_id': ['N'], 'change': ['N', 'i0', 'i1'], 'depth': ['N', 'i0', 'i3', 'i5'], 'used': ['N', 'F', 'T'],
+    'has_balance': ['N', 'F'], 'is_active': ['N', 'T', 'F'],
+    'as_dict': ['T'],                       # (the row objects returned without as_dict are database handles)
+}
+DEFAULT_TOKEN = {'None': 'N', 'False': 'F', 'True': 'T'}
+# entry point -> the kind of object it is called on;  the others are reviewed as NOT presenting a public view
+VIEW_ENTRIES = {
+    'Key.public': 'k', 'Key.as_dict': 'k', 'Key.as_json': 'k', 'Key.public_uncompressed_hex': 'k',
+    'Key.public_uncompressed_byte': 'k', 'Key.public_point': 'k',
+    'HDKey.public': 'h', 'HDKey.as_dict': 'h', 'HDKey.as_json': 'h', 'HDKey.wif': 'h', 'HDKey.wif_public': 'h',
+    'HDKey.public_master': 'h', 'HDKey.public_master_multisig': 'h', 'HDKey.child_public': 'h',
+    'WalletKey.public': 'wk', 'WalletKey.as_dict': 'wk', 'WalletKey.keys_public': 'wk',
+    'Wallet.public_master': 'w', 'Wallet.wif': 'w', 'Wallet.as_dict': 'w', 'Wallet.as_json': 'w', 'Wallet.info': 'w',
+    'Wallet.keys': 'w',
+}
+NOT_VIEWS = {
+    'Key.wif': 'the private WIF of a private key, by definition', 'Key.info': 'documented to print the private key',
+    'HDKey.info': 'documented to print the private key', 'Address.as_dict': 'no key object', 'Address.as_json': 'no key object',
+    'WalletKey.key': 'hands out the key object itself', 'Wallet.account': 'hands out the account WalletKey itself',
+}
+
+
+def entry_points():
+    import sys
+    tdir = os.path.join(os.path.dirname(os.path.dirname(os.path.dirname(os.path.abspath(__file__)))), 'translator')
+    if tdir not in sys.path:
+        sys.path.insert(0, tdir)
+    import gen_fields
+    return gen_fields.entry_point_params(REPO)
+
+
+def arg_specs(params, rng, cap, other_net):
+    """argument combinations of one entry point: the full product of the reviewed values of its plain parameters (asks-
+    for-private parameters left out), then explicit FALSE forms of the asks-for-private parameters with random other
+    arguments.  Above `cap` combinations: every value of every parameter once, then a seeded sample.
+    Returns (list of argspecs, list of parameter names that are not reviewed)."""
+    import itertools
+    unknown = [p for p, _ in params if p not in ARG_VALUES and p not in ASKS_PRIVATE]
+    plain = [(p, d) for p, d in params if p in ARG_VALUES]
+    ask = [p for p, _ in params if p in ASKS_PRIVATE]
+
+    def choices(p, d):
+        out = []
+        for v in ARG_VALUES[p]:
+            if v == '$other':
+                v = 's' + other_net
+            # the default value stands for "argument not passed"; a single reviewed value is always passed
+            dv = DEFAULT_TOKEN.get(d, 'i' + d if d.isdigit() else None)
+            out.append(None if (v == dv and len(ARG_VALUES[p]) > 1) else v)
+        return out
+
+    def spec(names, vals):
+        items = ['%s=%s' % (n, v) for n, v in zip(names, vals) if v is not None]
+        return ('~' + '~'.join(items)) if items else '-'
+
+    names = [p for p, _ in plain]
+    chs = [choices(p, d) for p, d in plain]
+    total = 1
+    for c in chs:
+        total *= len(c)
+    if total <= cap:
+        combos = list(itertools.product(*chs))
+    else:
+        base = [c[0] for c in chs]
+        combos = [tuple(base)]
+        for i, c in enumerate(chs):
+            for v in c[1:]:
+                combos.append(tuple(base[:i] + [v] + base[i + 1:]))
+        seen = set(combos)
+        while len(combos) < cap:
+            x = tuple(rng.choice(c) for c in chs)
+            if x not in seen:
+                seen.add(x)
+                combos.append(x)
+    specs = [spec(names, c) for c in combos]
+    for a in ask:
+        for f in FALSY:
+            for _ in range(2):
+                x = [rng.choice(c) for c in chs]
+                specs.append(spec(names + [a], x + [f]))
+    out = []
+    for x in specs:
+        if x not in out:
+            out.append(x)
+    return out, unknown
+
+
+def gen_pv_cases(rng, tier, nets):
+    big = tier == 'thorough'
+    cs = []
+    eps = entry_points()
+    for q in sorted(eps):
+        if q not in VIEW_ENTRIES and q not in NOT_VIEWS:
+            cs.append(Case('pv_unreviewed', 'pv-unreviewed entry %s' % q))
+    seg_nets = [n for n in nets if n not in ('dogecoin', 'dogecoin_testnet', 'litecoin_legacy')]
+
+    def other(net):
+        return 'litecoin' if net != 'litecoin' else 'bitcoin'
+
+    # ---- Key / HDKey level: every entry point, the full product of its arguments, several kinds of source key
+    plan = [('master', 'bitcoin', 'segwit'), ('warm', rng.choice(seg_nets), 'segwit'), ('ms', rng.choice(seg_nets), 'p2sh-segwit')]
+    if big:
+        plan += [('acct', 'bitcoin', 'segwit'), ('warm', 'dogecoin', 'legacy'), ('master', 'bitcoinlib_test', 'legacy')]
+        plan += [(rng.choice(['master', 'warm', 'ms', 'acct']), n, rng.choice(WITNESS_TYPES)) for n in nets]
+    for src, net, wt in plan:
+        for q in sorted(eps):
+            if VIEW_ENTRIES.get(q) != 'h':
+                continue
+            specs, unknown = arg_specs(eps[q] or [], rng, 100000, other(net))
+            for u in unknown:
+                cs.append(Case('pv_unreviewed', 'pv-unreviewed parameter %s of %s' % (u, q)))
+            secret = '%064x' % rng.randrange(1, N)
+            chain = bytes(rng.randrange(256) for _ in range(32)).hex()
+            # (one request per entry point and at most 120 combinations, so a failing input names few calls)
+            for i in range(0, len(specs), 120):
+                cs.append(Case('pv_' + q, 'pvk %s %s %s %s %s %s@%s' % (src, secret, chain, net, wt, q, ';'.join(specs[i:i + 120]))))
+    for net in (nets if big else [rng.choice(nets)]):
+        toks = []
+        for q in sorted(eps):
+            if VIEW_ENTRIES.get(q) == 'k':
+                specs, unknown = arg_specs(eps[q] or [], rng, 1000, other(net))
+                toks.append('%s@%s' % (q, ';'.join(specs)))
+        cs.append(Case('pv_Key', 'pvk key %064x %s %s legacy %s' % (rng.randrange(1, N), '00' * 32, net, ' '.join(toks))))
+    # ---- Wallet / WalletKey level: every configuration, warm caches, every entry point x argument combinations
+    confs = [('master', '-'), ('acctprv', '-'), ('single', '-'), ('ms:master+acctpub:0', '-'), ('ms:acctprv+master:1', '-')]
+    if big:
+        confs += [('master', 'm'), ('master', 'w'), ('acctpub', '-'), ('singlepub', '-'), ('ms:acctprv+acctprv+acctpub:1', '-'),
+                  ('ms:single+singlepub:0', '-'), ('master', '-'), ('acctprv', 'w')]
+    for j, (conf, flags) in enumerate(confs):
+        net = 'bitcoinlib_test' if j % 2 == 0 else rng.choice(seg_nets)
+        wt = WITNESS_TYPES[(j + 2) % 3]
+        toks = []
+        for q in sorted(eps):
+            if VIEW_ENTRIES.get(q) in ('w', 'wk'):
+                specs, unknown = arg_specs(eps[q] or [], rng, 400 if big else 28, other(net))
+                for u in unknown:
+                    cs.append(Case('pv_unreviewed', 'pv-unreviewed parameter %s of %s' % (u, q)))
+                toks.append('%s@%s' % (q, ';'.join(specs)))
+        seed = bytes(rng.randrange(256) for _ in range(16)).hex()
+        cs.append(Case('pv_wallet_' + conf.split(':')[0], 'pvw %s %s %s %s %s %s' % (conf, seed, net, wal_wt(rng, net, wt), flags,
+                                                                                    ' '.join(toks))))
+    return cs
+
+
+def rand_args(rng, params, p_private=0.0, exclude=(('account_id', 'N'),)):
+    """random argument list (argspec suffix) over the reviewed values; with probability p_private one asks-for-private
+    parameter is set to a TRUE value (the model then predicts the private result)."""
+    items = []
+    for p in params:
+        if p in ASKS_PRIVATE:
+            r = rng.random()
+            if r < p_private:
+                items.append('%s=%s' % (p, rng.choice(['T', 'i1', 'ssegwit'])))
+            elif r < p_private + 0.3:
+                items.append('%s=%s' % (p, rng.choice(FALSY)))
+        elif rng.random() < 0.6:
+            v = rng.choice([x for x in ARG_VALUES[p] if x != '$other' and (p, x) not in exclude])
+            items.append('%s=%s' % (p, v))
+    return ''.join('~' + x for x in items)
 
 
 def model_req(c):
@@ -387,6 +643,17 @@ def _norm_wk(s):
     return ' '.join(out)
 
 
+WK_CHANGE_POS = 7                # `change` in the alphabetical WalletKey field list
+
+
+def _pma_change(tok):
+    p = tok.split(':')
+    if len(p) == 4 and p[3] != '-':
+        p[3] = '/'.join(k[:WK_CHANGE_POS] + ('P' if k[WK_CHANGE_POS] == 'N' else k[WK_CHANGE_POS]) + k[WK_CHANGE_POS + 1:]
+                        if len(k) > WK_CHANGE_POS else k for k in p[3].split('/'))
+    return ':'.join(p)
+
+
 def same(c, impl_out, model_out):
     t = c.req.split(' ')[0]
     if t not in ('key', 'wk', 'wal'):
@@ -395,13 +662,25 @@ def same(c, impl_out, model_out):
         return True          # reported by prop_check
     states = impl_out.split(' ## ')[0]
     if t == 'wal':
-        return _norm_wal(states) == _norm_wal(model_out)
+        a, b = _norm_wal(states).split(' '), _norm_wal(model_out).split(' ')
+        ops = c.req.split(' ')[2].split(',')
+        if len(a) == len(b) == len(ops) + 1:
+            for i, o in enumerate(ops):
+                if 'PmA~' in o and any(x in o for x in ('account_id=', 'witness_type=', 'network=')):
+                    # the WalletKey of an account / witness type / network that did not exist before is handed out with
+                    # its public `change` attribute still None: not modelled, not secret-relevant
+                    a[i + 1] = _pma_change(a[i + 1])
+                    b[i + 1] = _pma_change(b[i + 1])
+        return a == b
     if t == 'wk':
         return _norm_wk(states) == _norm_wk(model_out)
     return states == model_out
 
 
 def is_trivial(c, out):
+    if c.req.startswith('pv') and not out.startswith('CRASH'):
+        # every call of the request raised (or there was none)
+        return sum(int(n) for n in re.findall(r':ok=(\d+):', out.split(' ## ')[0])) == 0
     return out.startswith('CRASH') or out == 'BADREQ'
 
 
@@ -414,9 +693,20 @@ def real_leaks(out):
 
 
 def prop_check(c, out):
+    if c.req.startswith('pv-unreviewed'):
+        return ('a function that presents its result as public has an %s that has not been reviewed (asks for private output, '
+                'or plain?): add it to the frozen tables of the model and of harness/props/c16.py' % c.req[len('pv-unreviewed '):])
     if out.startswith('CRASH') or out == 'BADREQ':
         return 'adapter could not run the case: %s' % out[:160]
     t = c.req.split(' ')[0]
+    if t in ('pvk', 'pvw'):
+        lk = real_leaks(out)
+        if lk:
+            return ('private key material reachable from the result of a public-view entry point called with arguments: '
+                    + '; '.join(lk[:6]))
+        if 'control=MISSED' in out:
+            return 'scan sensitivity control failed (the same call asking for private output was not recognised): ' + out[:200]
+        return None
     if t in ('key', 'wk', 'wallet', 'wal'):
         lk = real_leaks(out)
         if lk:
